@@ -1,8 +1,15 @@
 #!/bin/sh
-# Offline setup: nothing to fetch. Warm the Verus cache directory and check the tools are present.
+# Offline setup: nothing is fetched. Checks the tools, and warms the two cargo build directories
+# (Kani harness crate, replay crate) so that the first check does not pay for compiling dependencies.
+# Every check rebuilds from /repo's current working tree anyway (cargo / the extractor see changed files).
 set -e
 cd "$(dirname "$0")"
+export CARGO_NET_OFFLINE=true
 mkdir -p build/cache evidence
 command -v verus >/dev/null || { echo "verus not on PATH"; exit 1; }
-python3 -c "import sys; sys.path.insert(0,'.'); import vx.unit, vx.extract" 
+python3 -c "import sys; sys.path.insert(0,'.'); import vx.unit, vx.extract"
+cp /repo/Cargo.lock kani/pk/Cargo.lock 2>/dev/null || true
+cp /repo/Cargo.lock replay/Cargo.lock 2>/dev/null || true
+(cd kani/pk && cargo kani --harness status_byte_roundtrip >/dev/null 2>&1) || echo "warning: kani warm-up failed (checks will retry)"
+(cd replay && cargo build --offline >/dev/null 2>&1) || echo "warning: replay warm-up failed (built on demand)"
 echo "setup ok"
